@@ -131,13 +131,16 @@ CONFIGS = {
     # stream-native workers whose events carry a route code of their own: the suite's code is
     # prefixed to it (and a suite code of None leaves it as it is)
     "w2routed": [([("a1", "addSuccess")], None, "routed"), ([("b1", "addFailure"), ("b2", "addSkip")], None, "routed")],
+    # a worker whose route code is the empty string (any unicode string will do, says the docstring)
+    "w2empty": [([("a1", "addSuccess")], None), ([("b1", "addFailure")], None)],
+    "w2twice": [([("a1", "addSuccess")], None), ([("a1", "addSuccess")], None)],
     "w2x2": [([("a1", "addSuccess"), ("a2", "addFailure")], None), ([("b1", "addSkip"), ("b2", "addError")], None)],
     "w3x1": [([("a1", "addSuccess")], None), ([("b1", "addFailure")], None), ([("c1", "addSkip")], None)],
     "w4": [([("a1", "addSuccess")], None), ([("b1", "addFailure")], None), ([("c1", "addSkip")], None), ([], 0)],
 }
 ROUTES = ["0", "1", None, "3"]
 # harnesses whose workers share a route code (the docstring allows any code, None included)
-ROUTES_OF = {"w2same": ["0", "0"], "w2none": [None, None], "w2routed": ["0", None]}
+ROUTES_OF = {"w2same": ["0", "0"], "w2none": [None, None], "w2routed": ["0", None], "w2empty": ["", "1"]}
 
 
 def routes_of(config):
@@ -145,6 +148,10 @@ def routes_of(config):
 
 
 def make_workers(config):
+    if config == "w2twice":
+        # make_tests hands out the very same sub-suite object twice (a suite repeated on purpose)
+        w = Worker("w0", [("a1", "addSuccess")], None)
+        return [w, w]
     return [(SuiteLikeWorker if spec[2:] == ("suite",) else ExitingWorker if spec[2:] == ("exit",) else Worker)("w%d" % i, spec[0], spec[1], native=(spec[2] if spec[2:] in (("chatty",), ("routed",)) else spec[2:] == ("native",))) for i, spec in enumerate(CONFIGS[config])]
 
 
@@ -459,6 +466,19 @@ def check_execution(kind, config, r):
         problems.append(("threads", "%d real thread(s) left behind" % r.leaked_threads))
     workers = r.workers
     nstarted = len(r.shim.created_threads)
+    if config == "w2twice":
+        # the same object twice: two threads, two runs of it, and run() waits for both
+        w = workers[0]
+        if r.outcome != ("returned",):
+            problems.append(("outcome", "run() ended with %r" % (r.outcome,)))
+        if r.unfinished_at_exit:
+            problems.append(("join", "run() returned while worker task(s) %r were still running" % (r.unfinished_at_exit,)))
+        if nstarted != 2 or len(w.entries) != 2 or len(set(w.entries)) != 2:
+            problems.append(("run-once", "one sub-suite object handed out twice: %d threads started, run() entered from tasks %r" % (nstarted, w.entries)))
+        got = [e[1] for e in r.target.log if e[1] in ("startTest", "addSuccess", "stopTest")]
+        if got != ["startTest", "addSuccess", "stopTest"] * 2:
+            problems.append(("delivery", "one sub-suite object handed out twice: the result saw %r" % (got,)))
+        return problems
     ref = reference(kind, config)
     log = r.target.log
     if kind == "cts":
@@ -646,6 +666,7 @@ def plan(tier):
                 out.append((kind, "w2native", (1, 1), None, False))
                 out.append((kind, "w2chatty", (1, 0), None, False))
                 out.append((kind, "w2routed", (1, 0), None, False))
+                out.append((kind, "w2empty", (1, 0), None, False))
             if kind == "csts":
                 # (the caller's result raising aborts ConcurrentStreamTestSuite.run)
                 out.append((kind, "w1+rerun", (1, 1), None, False))
@@ -660,6 +681,7 @@ def plan(tier):
             out.append((kind, "w2", (2, 0), 2, False))
             out.append((kind, "w2", (2, 1), None, True))
             out.append((kind, "w3", (1, 1), None, True))
+        out.append(("cts", "w2twice", (2, 0), None, False))
         out.append(("cts", "w3", (2, 0), None, False))
         return out
     # thorough = the quick plan plus deeper / wider harnesses (sizes measured; each shard is
